@@ -20,7 +20,7 @@ RULE = ("plan = file of one format (DataFrame csv / json / parquet / npz, GeoJSO
         "== read-everything-then-select-and-cast (per name). The plan's keywords are checked against inspect.signature of "
         "every alias so that a new keyword cannot go untested. Non-trivial: a restriction in non-file order, or a dtype/type "
         "map, or a non-default keyword. Distinct = plan hash.")
-CASES = {"quick": 1500, "thorough": 4000}
+CASES = {"quick": 1500, "thorough": 8000}
 
 ALIAS_KEYWORDS = {
     "read_csv": {"encoding", "sep", "header", "columns", "dtypes"},
